@@ -61,6 +61,20 @@ func (c49Service) SleepCtx(ctx context.Context, d time.Duration) string {
 	}
 }
 
+// Eager is a subscription that notifies synchronously before the subscribe call returns
+// (allowed: the notifier buffers until the response carrying the id has been sent).
+func (c49Service) Eager(ctx context.Context, n int) (*Subscription, error) {
+	notifier, ok := NotifierFromContext(ctx)
+	if !ok {
+		return nil, ErrNotificationsUnsupported
+	}
+	sub := notifier.CreateSubscription()
+	for i := 0; i < n; i++ {
+		notifier.Notify(sub.ID, i)
+	}
+	return sub, nil
+}
+
 // ---------------------------------------------------------------------------
 // script model
 
@@ -128,7 +142,7 @@ func (g *c49Gen) genMethod(rt *rapid.T) (method, params, label string, sleepNs i
 			menu = append(menu, "block", "block", "sleep", "sleep", "sleep", "sleepctx", "sleepctx", "sleepctx")
 		}
 	} else {
-		menu = append(menu, "subscribe", "subscribe", "subscribe", "unsubscribe", "badsubscribe")
+		menu = append(menu, "subscribe", "subscribe", "eagersubscribe", "eagersubscribe", "unsubscribe", "badsubscribe")
 	}
 	switch label = rapid.SampledFrom(menu).Draw(rt, "method"); label {
 	case "echo":
@@ -175,6 +189,9 @@ func (g *c49Gen) genMethod(rt *rapid.T) (method, params, label string, sleepNs i
 	case "subscribe":
 		*g.subsMade++
 		return "nftest_subscribe", fmt.Sprintf(`["someSubscription",%d,%d]`, rapid.SampledFrom([]int{0, 1, 3, 10, 25}).Draw(rt, "subN"), rapid.IntRange(0, 5).Draw(rt, "subVal")), label, 0, true
+	case "eagersubscribe":
+		*g.subsMade++
+		return "v_subscribe", fmt.Sprintf(`["eager",%d]`, rapid.SampledFrom([]int{0, 1, 2, 7}).Draw(rt, "eagerN")), label, 0, true
 	case "unsubscribe":
 		return "nftest_unsubscribe", fmt.Sprintf(`[%q]`, rapid.SampledFrom([]string{"0x1", "0x1", "0x2", "0x3", "0xdead"}).Draw(rt, "unsubID")), label, 0, false
 	case "badsubscribe":
